@@ -895,6 +895,58 @@ def site_census(sc):
     return sites, unreached
 
 
+DOC_NAMES = {"tracker": "tracker", "channels": "channels", "channel map": "channels", "channel": "slot", "slot": "slot",
+             "node state": "node_state", "node_state": "node_state", "monitor": "monitor"}
+
+
+def documented_orders(repo):
+    """The lock orders the source itself documents in comments (`lock order: a -> b -> c`, `lock order: a before
+    b`, monitor.rs `Lock order: after self.state` next to decode_state): [(file:line, [class, ...])].  A comment
+    that mentions a lock order and is not understood fails the extraction (unless it documents an exception:
+    "backwards")."""
+    out = []
+    for f, rel in FILES.items():
+        text = read(repo, rel)
+        m0 = re.search(r"\n#\[cfg\(test\)\]\s*\n\s*mod\s+\w+", text)
+        lines = (text[:m0.start()] if m0 else text).split("\n")
+        for k, line in enumerate(lines):
+            cm = re.search(r"//+\s*(.*)$", line)
+            if not cm or not re.search(r"lock order", cm.group(1), re.I):
+                continue
+            c = cm.group(1)
+            # comments may continue on the next line(s)
+            j = k + 1
+            while j < len(lines) and re.match(r"\s*//", lines[j]) and j < k + 3:
+                c += " " + re.sub(r"^\s*//+\s*", "", lines[j])
+                j += 1
+            where = "%s:%d" % (rel, k + 1)
+            if re.search(r"backwards", c):
+                continue
+            m = re.search(r"lock order:?\s*\(?((?:[\w ]+?\s*->\s*)+[\w ]+?)\s*(?:[,.)(]|as in|$)", c, re.I)
+            if m:
+                names = [x.strip().lower() for x in m.group(1).split("->")]
+            else:
+                m = re.search(r"lock order:?\s*([\w ]+?)\s+before\s+([\w ]+?)\s*(?:[,.(]|as in|$)", c, re.I)
+                if m:
+                    names = [m.group(1).strip().lower(), m.group(2).strip().lower()]
+                elif f == "monitor" and re.search(r"lock order:?\s*after\s+`?self\.state`?", c, re.I):
+                    names = ["monitor", "monitor_decode_"]
+                else:
+                    raise ExtractError("%s: a comment documents a lock order that the extractor does not understand: %s" % (where, c[:120]))
+            chain = []
+            for nm in names:
+                if nm == "monitor_decode_":
+                    chain.append("monitor_decode")
+                elif nm in DOC_NAMES:
+                    chain.append(DOC_NAMES[nm])
+                else:
+                    raise ExtractError("%s: documented lock order names an unknown lock `%s`" % (where, nm))
+            out.append((where, chain))
+    if len(out) < 3:
+        raise ExtractError("the lock-order comments of node.rs / monitor.rs disappeared (found %d)" % len(out))
+    return out
+
+
 LEDGER_MARKS = ("claimable_balances", "validate_payments", "apply_payments")
 
 
@@ -1106,6 +1158,11 @@ def extract(repo):
           "def unreachedSites : List String := [%s]" % ", ".join('"%s"' % k for k in sc.unreached),
           "", "/-- (functions containing lock acquisitions, lock acquisition expressions in them, of which in reached functions) -/",
           "def siteCount : Nat × Nat × Nat := (%d, %d, %d)" % (len(sc.sites), sum(s[1] for s in sc.sites), sum(s[1] for s in sc.sites if s[2]))]
+    docs = documented_orders(repo)
+    L += ["", "/-- the lock orders that comments of the sources document (`lock order: a -> b -> c`, `a before b`,",
+          "monitor.rs `Lock order: after self.state`): (file:line, chain of classes) -/",
+          "def documentedOrders : List (String × List Cls) := [" +
+          ", ".join('("%s", [%s])' % (w, ", ".join(lean_class(c) for c in ch)) for w, ch in docs) + "]"]
     L += ["", "end VlsModel.Gen.LockTable", ""]
     facts = {k: {"edges": ["%s->%s" % e for e in table[k]["edges"]],
                  "path": " ".join(("+" if a == "acq" else "-") + c for a, c in table[k]["path"])} for k in kinds}
@@ -1140,6 +1197,7 @@ def extract(repo):
                              "lock_expressions": sum(s[1] for s in sc.sites),
                              "in_reached_functions": sum(s[1] for s in sc.sites if s[2]),
                              "unreached": {k: NON_REQUEST_SITES[k] for k in sc.unreached}}
+    facts["_documented_lock_orders"] = {w: " -> ".join(ch) for w, ch in docs}
     facts["_scanned_functions"] = sorted(sc.scanned)
     facts["_recursion_cuts"] = sorted(sc.recursion_cuts)
     return {"LockTable.lean": "\n".join(L)}, {"C20": {"facts": {"lock_table": facts}, "obligations": [
